@@ -29,9 +29,10 @@ WHAT = {
        "that releases or disconnects that next connection leaves it dangling (heap-use-after-free in qb_ipcs_destroy) "
        "(history: created1{Ref}; closed2{Unref 1}; client 1 leaves; Step; SvcDestroy)",
     7: "socket transport: qb_ipcs_request_rate_limit re-registers (dispatch_mod) the closed descriptor numbers of a listed "
-       "connection that is SHUTTING_DOWN (closed asked for a retry, or a reference is held); once a number is reused the new "
-       "owner's events are dispatched to the dead connection, which is disconnected again and freed under its queued job "
-       "(heap-use-after-free in qb_ipcs_disconnect, ipcs.c:602) (history: ClosedRet 1 -1 1 1; client leaves; new clients; RateLimit 0)",
+       "connection that is SHUTTING_DOWN (closed asked for a retry, or a reference is held); once a number is reused by a new "
+       "connection that one's events are dispatched to the dead connection, also after it was freed "
+       "(heap-use-after-free in qb_ipcs_dispatch_connection_request / qb_ipcs_disconnect) "
+       "(history: closed2 returns 1; its client dies; a new client connects; RateLimit; Jobs; the new client sends)",
 }
 CON = ["CConnect 0", "Step", "Step", "CContinue 0"]
 CON2 = CON + ["CConnect 1", "Step", "Step", "CContinue 1"]
@@ -43,7 +44,8 @@ REPRO = {
     5: (1, ["Body msg 1 0 Resp 2", "Body created 2 0 Disconnect 2 ; Ref self", "CConnect 2", "Step", "Step", "CContinue 2",
             "Fork 1 1 0", "Wait 1", "CConnect 0", "CSend 2 2", "Step"]),
     6: (0, ["Body created 1 0 Ref self", "Body closed 2 0 Unref 1"] + CON2 + ["CDisc 0", "Step", "SvcDestroy"]),
-    7: (1, ["ClosedRet 1 -1 1 1", "CConnect 3", "Step", "Step", "CDisc 3", "Step", "Fork 1 1 2", "CConnect 3", "Step", "RateLimit 0"]),
+    7: (1, ["ClosedRet 2 1", "CConnect 3", "Fork 0 1 0", "Wait 0", "Kill 0", "CContinue 3", "Step", "CConnect 2", "Step", "Step",
+            "CContinue 2", "RateLimit 2", "Drain", "CSend 2 1"]),
 }
 INVS = ["TypeOK", "WordOK", "ClosedOnlyIfCreated", "DestroyedAtZero", "RetryKeepsRef", "NoZombie", "Conforms",
         "NoUseAfterFree", "NoTornUse"]
